@@ -19,14 +19,14 @@ import (
 // has happened before the return; a successful DialAndSend wrote QUIT and closed.
 
 type C19Scenario struct {
-	Client ClientCfg       `json:"client"`
-	Server refsmtpd.Config `json:"server"`
-	Op     string          `json:"op"` // dial | dialandsend
-	Msgs   []MsgSpec       `json:"msgs,omitempty"`
-	Conn   sim.ConnFaults  `json:"conn,omitempty"`
-	Step   string          `json:"step"` // label of the injected failure (for the tag)
-	DialFail int           `json:"dialFail,omitempty"`
-	Sched  uint64          `json:"sched"`
+	Client   ClientCfg       `json:"client"`
+	Server   refsmtpd.Config `json:"server"`
+	Op       string          `json:"op"` // dial | dialandsend
+	Msgs     []MsgSpec       `json:"msgs,omitempty"`
+	Conn     sim.ConnFaults  `json:"conn,omitempty"`
+	Step     string          `json:"step"` // label of the injected failure (for the tag)
+	DialFail int             `json:"dialFail,omitempty"`
+	Sched    uint64          `json:"sched"`
 }
 
 type c19 struct{ cache map[string][]C19Scenario }
@@ -109,8 +109,12 @@ func (p *c19) build(seed uint64, tier string) []C19Scenario {
 					{"STARTTLS", "STARTTLS", 1, func() bool { return usesTLS }},
 					{"EHLO-after-TLS", "EHLO", 2, func() bool { return usesTLS }},
 					{"AUTH", "AUTH", 1, func() bool { return auth != "" }},
-					{"AUTHRESP-1", "AUTHRESP", 1, func() bool { return auth != "" && auth != "PLAIN" && auth != "PLAIN-NOENC" && auth != "XOAUTH2" && auth != "CUSTOM-PLAIN" }},
-					{"AUTHRESP-2", "AUTHRESP", 2, func() bool { return auth == "LOGIN" || auth == "LOGIN-NOENC" || strings.HasPrefix(auth, "SCRAM") || auth == "AUTODISCOVER" }},
+					{"AUTHRESP-1", "AUTHRESP", 1, func() bool {
+						return auth != "" && auth != "PLAIN" && auth != "PLAIN-NOENC" && auth != "XOAUTH2" && auth != "CUSTOM-PLAIN"
+					}},
+					{"AUTHRESP-2", "AUTHRESP", 2, func() bool {
+						return auth == "LOGIN" || auth == "LOGIN-NOENC" || strings.HasPrefix(auth, "SCRAM") || auth == "AUTODISCOVER"
+					}},
 					{"AUTHRESP-3", "AUTHRESP", 3, func() bool { return strings.HasPrefix(auth, "SCRAM") || auth == "AUTODISCOVER" }},
 				}
 				if op == "dialandsend" {
@@ -389,8 +393,8 @@ func (p *c19) Info() PropInfo {
 		Rule: "enumeration: {DialWithContext, DialAndSend} x TLS policy {mandatory, opportunistic, none} x auth type x failing step (greeting, EHLO, EHLO+HELO, STARTTLS missing/refused, TLS handshake failure kinds, post-TLS EHLO, AUTH missing/mechanism missing/bad password/each AUTH step, NOOP, MAIL, each RCPT, DATA, end-of-data, RSET, QUIT) x failure kind {421, 451, 550, 554, disconnect, garbage reply, reply-then-close}, each also combined with a second fault on the clean-up path (QUIT refused / dropped / garbled, RSET refused / dropped; thorough: all pairs, quick: every fifth), and connections made through the fallback port; a case is non-trivial when a failure is injected; distinct = distinct (op, policy, auth, step, rule, error class)",
 		Assumptions: []string{"the connection handed out by the dial function is the only transport resource; Close on it is what 'closed' means (for TLS-wrapped connections the underlying simulated connection's Close counts)",
 			"calls that never return are not judged here (C17)"},
-		Real:    []string{"github.com/wneessen/go-mail (Client, smtp.Client, all SASL mechanisms)", "net/textproto", "crypto/tls on both ends"},
-		Stubbed: []string{"TCP (sim.Pipe)", "SMTP server (refsmtpd automaton, refsasl)", "clock (synctest bubble)", "crypto/rand (seeded)", "trust store (simulator CA via SSL_CERT_FILE)"},
+		Real:       []string{"github.com/wneessen/go-mail (Client, smtp.Client, all SASL mechanisms)", "net/textproto", "crypto/tls on both ends"},
+		Stubbed:    []string{"TCP (sim.Pipe)", "SMTP server (refsmtpd automaton, refsasl)", "clock (synctest bubble)", "crypto/rand (seeded)", "trust store (simulator CA via SSL_CERT_FILE)"},
 		NotCovered: []string{"implicit-TLS default dialer path (tls.Dialer over a real net.Dialer)", "port fallback dial", "unix sockets"},
 		Exhaustive: func(string) bool { return true },
 		QuickRuns:  0, ThoroughRuns: 0, QuickBudget: 90 * time.Second, ThoroughBudget: 20 * time.Minute,
